@@ -1154,8 +1154,13 @@ impl<'a> Gen<'a> {
                 src,
                 opts: pick_opts(r, dialect_sensitive),
             },
-            12 if r.below(2) == 0 => Op::StagedJson {
+            12 if r.below(3) == 0 => Op::StagedJson {
                 src,
+                opts: pick_opts(r, dialect_sensitive),
+            },
+            12 if r.below(2) == 0 => Op::StagedRqEdit {
+                src,
+                edit: r.below(64) as u32,
                 opts: pick_opts(r, dialect_sensitive),
             },
             12 => {
